@@ -1,4 +1,5 @@
-(* one case per line (bytes in hex, chunks separated by '|'):
+(* one case per line (bytes in hex, chunks separated by '|', an empty chunk is "_",
+   no chunks at all is "-"):
      U c1|c2|...    Utf8LossyDecoder: new; process(c1); process(c2); ...; finish
      A c1|c2|...    decode_utf8_lossy / IncompleteUtf8::try_complete streaming
      K bytes        std::str::from_utf8
@@ -13,8 +14,9 @@ let bytes_of_hex s =
   let n = String.length s / 2 in
   List.init n (fun i -> int_of_string ("0x" ^ String.sub s (2 * i) 2))
 let chunks_of s =
-  if s = "" then [] else
-  List.map (fun h -> List.map n_of_int (bytes_of_hex h)) (String.split_on_char '|' s)
+  if s = "" || s = "-" then [] else
+  List.map (fun h -> if h = "_" then [] else List.map n_of_int (bytes_of_hex h))
+    (String.split_on_char '|' s)
 let hexn l = hex_of_ints (List.map int_of_n l)
 let show_ev = function
   | Str bs -> "s" ^ hexn bs
